@@ -73,6 +73,34 @@ pub fn check_bytes(ctx: &mut Ctx, family: &str, idx: u64, input: &[u8], built_tw
             t.cache_flush = !t.cache_flush;
             if t == **r && h(&t) != h(*r) { problems.push("eq-but-hash-differs:ttl-variant".into()); }
             if t != **r { problems.push("ttl-variant-not-equal".into()); }
+            // near-equal variants (ASCII case of the owner / of names inside the RDATA flipped): whatever the equality
+            // policy is, values that compare equal must hash equally and be found in a hash set
+            let flip = |n: &Name| -> Name<'static> {
+                let labels: Vec<simple_dns::Label<'static>> = n.get_labels().iter().map(|l| {
+                    let b: Vec<u8> = l.verif_bytes().iter().map(|c| if c.is_ascii_lowercase() { c.to_ascii_uppercase() } else { c.to_ascii_lowercase() }).collect();
+                    simple_dns::Label::new_unchecked(b)
+                }).collect();
+                Name::new_with_labels(&labels)
+            };
+            let mut v = (*r).clone().into_owned();
+            v.name = flip(&r.name);
+            if v == **r {
+                if h(&v) != h(*r) { problems.push("eq-but-hash-differs:record-owner-case-variant".into()); }
+                let mut set = HashSet::new();
+                set.insert((*r).clone());
+                if !set.contains(&v) { problems.push("hashset-misses-equal-record:case-variant".into()); }
+            }
+            if v.name == r.name && h(&v.name) != h(&r.name) { problems.push("eq-but-hash-differs:name-case-variant".into()); }
+            if let simple_dns::rdata::RData::PTR(n) = &r.rdata {
+                let w = simple_dns::rdata::RData::PTR(flip(&n.0).into());
+                if w == r.rdata && h(&w) != h(&r.rdata) { problems.push("eq-but-hash-differs:rdata-name-case-variant".into()); }
+            }
+            if let simple_dns::rdata::RData::HINFO(x) = &r.rdata {
+                let fl: Vec<u8> = x.cpu.verif_bytes().iter().map(|c| if c.is_ascii_lowercase() { c.to_ascii_uppercase() } else { c.to_ascii_lowercase() }).collect();
+                if let Ok(cs) = simple_dns::CharacterString::new(&fl) {
+                    if cs == x.cpu && h(&cs) != h(&x.cpu) { problems.push("eq-but-hash-differs:character-string-case-variant".into()); }
+                }
+            }
         }
         for q in &p.questions {
             if q.qname.clone().into_owned() != q.qname { problems.push("qname-owned-ne".into()); }
